@@ -580,7 +580,86 @@ def batch_pass_check() -> tuple[int, list]:
         v = list(w.viol) or build_after(w)
         for (m, c, msg_) in v:
             viols.setdefault((m, c), (msg_, {"batch": True, "choices": choices}))
-    return runs, [(m, c, msg_, rp) for (m, c), (msg_, rp) in viols.items()]
+    r2, v2 = batch_late_payload()
+    return runs + r2, [(m, c, msg_, rp) for (m, c), (msg_, rp) in viols.items()] + v2
+
+
+SCENARIOS["T,T'(d);purge(d)@B;T(e)"] = {
+    "initial": [("A", "d"), ("A", "e")],
+    "commands": [("transmit", "d", "A", "B", 0), ("transmit", "d", "A", "B", 1), ("purge", "d", "B"), ("transmit", "e", "A", "B", 2)],
+    "purge_guard": {"2": "after-announcement"},
+    "expect": [("not-held", "d", "B"), ("held", "e", "B"), ("announced", "e", "B", 1, 1), ("announced", "d", "B", 1, 1)]}
+SCENARIOS["T,T'(d);purge(d)@B;T(e:B>A)"] = {
+    "initial": [("A", "d"), ("B", "e")],
+    "commands": [("transmit", "d", "A", "B", 0), ("transmit", "d", "A", "B", 1), ("purge", "d", "B"), ("transmit", "e", "B", "A", 2)],
+    "purge_guard": {"2": "after-announcement"},
+    "expect": [("not-held", "d", "B"), ("held", "e", "A"), ("announced", "e", "A", 1, 1), ("announced", "d", "B", 1, 1)]}
+
+
+def batch_late_payload() -> tuple[int, list]:
+    """Second batch: d is sent to B by two commands (a redundant transfer); the first payload is stored and announced, d
+    is purged at B, and the second payload -- still on its way -- reaches B's loop in ONE batch together with another
+    frame: the payload of e (A->B), or the controller's command to send e from B to A (which nobody would repeat), in
+    both orders. The late payload must be discarded, and e must be stored and announced at its target."""
+    out: dict = {}
+    runs = 0
+    for late_first, variant in ((True, "payload"), (False, "payload"), (True, "command"), (False, "command")):
+        sc = SCENARIOS["T,T'(d);purge(d)@B;T(e)" if variant == "payload" else "T,T'(d);purge(d)@B;T(e:B>A)"]
+        w = build(sc, 0, [], 0)
+
+        def to_b():
+            return [k for k, i in enumerate(w.net.deliverable()) if w.net.flight[i][0] == "d.B"]
+
+        def idx_to(addr, nth=0):
+            ks = [k for k, i in enumerate(w.net.deliverable()) if w.net.flight[i][0] == addr]
+            if len(ks) <= nth:
+                raise HarnessError(f"late-payload batch: no frame #{nth} in flight to {addr}: {[f[0] for f in w.net.flight]}")
+            return ks[nth]
+
+        def settle_except_b():
+            while True:
+                ks = [k for k, i in enumerate(w.net.deliverable()) if w.net.flight[i][0] != "d.B"]
+                if not ks:
+                    return
+                w.apply(("deliver", ks[0]))
+
+        w.apply(("issue",))                      # T(d) #0
+        w.apply(("deliver", idx_to("d.A")))
+        w.apply(("complete", "A", 0))
+        w.apply(("deliver", idx_to("d.B")))      # payload #0 arrives at B
+        w.apply(("complete", "B", 0))            # stored, announced
+        settle_except_b()
+        w.apply(("issue",))                      # T'(d) #1
+        w.apply(("deliver", idx_to("d.A")))
+        w.apply(("complete", "A", 0))            # payload #1 on the wire, it will be late
+        settle_except_b()
+        if len(to_b()) != 1 or not w.cmd_enabled(2):
+            raise HarnessError(f"late-payload batch: expected exactly the second payload in flight to B and the purge enabled ({len(to_b())}, {w.cmd_enabled(2)})")
+        w.apply(("issue",))                      # purge d@B: its frame is behind the late payload on another connection
+        if len(to_b()) == 2:
+            w.apply(("deliver", idx_to("d.B", 1)))   # ... and overtakes it
+        settle_except_b()
+        if variant == "payload":
+            w.apply(("issue",))                  # T(e: A->B)
+            w.apply(("deliver", idx_to("d.A")))
+            w.apply(("complete", "A", 0))        # payload of e on the wire
+            settle_except_b()
+            if len(to_b()) != 2:
+                raise HarnessError(f"late-payload batch: expected the late payload of d and the payload of e in flight to B, found {len(to_b())}")
+            for nth in ([0, 0] if late_first else [1, 0]):
+                w.apply(("queue", idx_to("d.B", nth)))
+        elif late_first:
+            w.apply(("queue", idx_to("d.B", 0)))
+            w.apply(("issue-queued",))           # T(e: B->A): the command lands in B's queue behind the late payload
+        else:
+            w.apply(("issue-queued",))
+            w.apply(("queue", idx_to("d.B", 0)))
+        w.apply(("pass", "B", []))
+        runs += 1
+        v = list(w.viol) or build_after(w)
+        for (m, c, msg_) in v:
+            out.setdefault((m, c), (msg_, {"batch": "late-payload", "late_first": late_first, "variant": variant}))
+    return runs, [(m, c, msg_, rp) for (m, c), (msg_, rp) in out.items()]
 
 
 for _n in ("T(d),T(e);purge(e)@A", "T(d),T(e)"):
